@@ -24,6 +24,7 @@ type Engine struct {
 	tpkgs   map[string]*packages.Package
 	specs   *Specs
 	repeatInfo *repeatScan
+	missing    []missingTarget
 	fnIDs   map[*ssa.Function]int
 	fnByID  []*ssa.Function
 	tags    map[string]int
@@ -202,6 +203,11 @@ func (e *Engine) implementers(t types.Type) []int {
 }
 
 // lookupFunc resolves a designator ("name", "(*T).m", "T.m") in a package.
+type missingTarget struct {
+	c   *Contract
+	msg string
+}
+
 func (e *Engine) lookupFunc(pkgPath, desig string) *ssa.Function {
 	p := e.pkgs[pkgPath]
 	if p == nil {
@@ -250,7 +256,7 @@ func (e *Engine) bindContracts() error {
 		i := strings.Index(key, "::")
 		f := e.lookupFunc(key[:i], key[i+2:])
 		if f == nil {
-			errs = append(errs, fmt.Sprintf("%s: contract target %s not found in %s", c.Where, key[i+2:], key[:i]))
+			e.missing = append(e.missing, missingTarget{c, fmt.Sprintf("%s: contract target %s not found in %s", c.Where, key[i+2:], key[:i])})
 			continue
 		}
 		e.contractOf[f] = c
@@ -260,7 +266,7 @@ func (e *Engine) bindContracts() error {
 		i := strings.Index(key, "::")
 		f := e.lookupFunc(key[:i], key[i+2:])
 		if f == nil {
-			errs = append(errs, fmt.Sprintf("%s: loop contract target %s not found", cs[0].Where, key[i+2:]))
+			e.missing = append(e.missing, missingTarget{cs[0], fmt.Sprintf("%s: loop contract target %s not found", cs[0].Where, key[i+2:])})
 			continue
 		}
 		e.loopsOf[f] = cs
